@@ -109,6 +109,12 @@ CfgSame(c) == c.key = [s \in Subs |-> 1] /\ c.filt[1] = "all" /\ c.conn = [s \in
 CfgDiff(c) == c.key = [s \in Subs |-> s] /\ c.filt[1] = "all" /\ c.filt[2] = "all" /\ c.conn = [s \in Subs |-> 1]
 CfgNoFilt(c) == \A s \in Subs : c.filt[s] = "all"
 CfgRace(c) == c.filt[1] = "all" /\ (c.key[NS] = 1 => c.conn[NS] = NS) /\ (c.key[NS] # 1 => c.conn[NS] = 1 /\ c.filt[NS] = "all")
+\* without events the filters do not matter: one configuration per sharing shape
+CfgStart(c) == (\A s \in Subs : c.filt[s] = "all") /\ (c.key[NS] = 1 => c.conn[NS] = NS) /\ (c.key[NS] # 1 => c.conn[NS] = 1)
 StartOK == {"ok"}
+StartOkCtx == {"ok", "ctx"}
+StartCtx == {"ctx"}
+StartFail == {"fail"}
+CfgOne(c) == c.key = [s \in Subs |-> 1] /\ c.filt = [s \in Subs |-> "all"] /\ c.conn = [s \in Subs |-> s]
 StartAll == {"ok", "fail", "ctx"}
 =============================================================================
